@@ -464,7 +464,8 @@ func ParseWithIncarnationID(value, incarnationID string) (*Address, error) {
 //   - Only the "goakt" scheme is accepted (case-sensitive).
 //   - Port must be a base-10 integer.
 //   - Path may contain at most one '/' (to separate <parent>/<name>).
-//   - Raw IPv6 literals are not supported by this parser (use a hostname).
+//   - Raw (un-bracketed) IPv6 literals are accepted, exactly as String() emits
+//     them: the port is what follows the last ':' of the endpoint.
 //   - No semantic validation is performed. The canonical string carries no
 //     incarnation identifier, so the result has an empty IncarnationID and does
 //     not pass Validate; use ParseWithIncarnationID to restore a validatable
@@ -515,10 +516,13 @@ func Parse(addr string) (*Address, error) {
 		return nil, errors.New("address format is invalid")
 	}
 
-	host, portStr, ok := strings.Cut(hostPort, ":")
-	if !ok || strings.Contains(portStr, ":") {
+	// the port follows the last ':' of the endpoint: String() emits IPv6 hosts
+	// raw and un-bracketed (e.g. "::1:9000"), so the host itself may contain ':'
+	sep := strings.LastIndexByte(hostPort, ':')
+	if sep < 0 {
 		return nil, errors.New("address format is invalid")
 	}
+	host, portStr := hostPort[:sep], hostPort[sep+1:]
 
 	parsedPort, err := strconvx.ParseInt32(portStr)
 	if err != nil {
